@@ -3,13 +3,18 @@ package main
 // C16: phasing gives one correctly framed result per sequence for any thread count; LongestORF.
 
 import (
+	"bytes"
 	"fmt"
 	"math/rand"
+	"os"
+	"os/exec"
+	"path/filepath"
 	"sort"
 	"strings"
 	"time"
 
 	"github.com/evolbioinfo/goalign/align"
+	"github.com/evolbioinfo/goalign/io/fasta"
 )
 
 func init() { register("c16", c16) }
@@ -127,6 +132,60 @@ func c16(args []string) error {
 			orf += randCodon()
 		}
 		orf += []string{"TAA", "TAG", "TGA"}[r.Intn(3)]
+		// goalign phasent: the codon output (--nt-output) is in the frame of the ORF, it translates to --aa-output;
+		// sequences lacking the first k nucleotides of the ORF start inside a codon
+		if bin := os.Getenv("VERIF_GOALIGN_BIN"); bin != "" && r.Intn(6) == 0 {
+			if tmpd, e := os.MkdirTemp("", "c16cli"); e == nil {
+				cn, cs := []string{}, []string{}
+				var fa strings.Builder
+				for k, n := 0, 2+r.Intn(3); k < n; k++ {
+					cut := []int{0, 1, 2, 4, 5, 7, 8, 3}[r.Intn(8)]
+					sq := orf[cut:] + flank(6)
+					if r.Intn(3) == 0 {
+						sq = flank(5) + orf + flank(4)
+					}
+					cn, cs = append(cn, fmt.Sprintf("q%d", k)), append(cs, sq)
+					fmt.Fprintf(&fa, ">q%d\n%s\n", k, sq)
+				}
+				inf, orff := filepath.Join(tmpd, "in.fa"), filepath.Join(tmpd, "orf.fa")
+				ntf, aaf := filepath.Join(tmpd, "nt.fa"), filepath.Join(tmpd, "aa.fa")
+				os.WriteFile(inf, []byte(fa.String()), 0644)
+				os.WriteFile(orff, []byte(">orf\n"+orf+"\n"), 0644)
+				cmd := exec.Command(bin, "phasent", "-i", inf, "--unaligned", "--ref-orf", orff, "-o", filepath.Join(tmpd, "ph.fa"), "--nt-output", ntf, "--aa-output", aaf,
+					"-t", fmt.Sprint(1+r.Intn(4)))
+				agree := true
+				note := ""
+				if cmd.Run() == nil {
+					read := func(fn string) map[string]string {
+						m := map[string]string{}
+						if b, e := os.ReadFile(fn); e == nil {
+							if sb, pe := fasta.NewParser(bytes.NewReader(b)).ParseUnalign(); pe == nil {
+								n, q := alignContent(sb)
+								for k := range n {
+									m[n[k]] = q[k]
+								}
+							}
+						}
+						return m
+					}
+					nt, aa := read(ntf), read(aaf)
+					for name, codons := range nt {
+						tr, e := align.NewSequence(name, []uint8(codons), "").Translate(0, align.GENETIC_CODE_STANDARD)
+						if e != nil || string(tr.SequenceChar()) != aa[name] {
+							agree = false
+							note = name + ": " + codons + " does not translate to " + aa[name]
+						}
+					}
+					if len(nt) != len(aa) {
+						agree = false
+					}
+				}
+				os.RemoveAll(tmpd)
+				w.add(fmt.Sprintf("mk 2 %s None false false false 0 %v true [] [] %s None", coqRows(cn, cs), !agree, coqRows(cn, cs)),
+					map[string]interface{}{"op": "cli:phasent", "names": cn, "seqs": cs, "orf": orf, "agree": agree, "note": note})
+				stats["cli:phasent"]++
+			}
+		}
 		nseq := 1 + r.Intn(5)
 		names := distinctNames(r, nseq)
 		seqs := make([]string, nseq)
